@@ -63,6 +63,8 @@ func encodeFunction(w *World, fn *ssa.Function, dropped map[string]bool) (e *Enc
 	e.get(st, "ghost:metricvec", Arr(RefS, Arr(RefS, BV64)))
 	e.get(st, "ghost:hash#st", Arr(RefS, IntS))
 	e.get(st, "ghost:randfill", Arr(RefS, BV64))
+	e.get(st, "ghost:bufwrites", Arr(RefS, BV64))
+	e.get(st, "ghost:buflen", Arr(RefS, BV64))
 	e.entry = st
 	e.cur = st
 	if fn.Name() != "init" {
@@ -139,6 +141,7 @@ func encodeFunction(w *World, fn *ssa.Function, dropped map[string]bool) (e *Enc
 			if o != nil {
 				o.Props = propsOfTag(cl.Tag, ct.Props)
 				o.Expr = cl.Text
+				o.Clause = cl
 			}
 		}
 	}
